@@ -257,7 +257,7 @@ def check_object(ca, name, make, text, plat):
         if c.line != o.line:
             return fail(f"{how} has text {c.line!r}, the source {o.line!r}", how=how)
         if _strip(c.data()) != _strip(o.data()):
-            return fail(f"{how} has different data: {_diff(_strip(o.data()), _strip(c.data()))}", how=how)
+            return fail(f"{how} has different data: {_diff(_strip(o.data()), _strip(c.data()))} (source text {o.line!r})", how=how)
         if [x.line for x in entries(ca, c)] != [x.line for x in entries(ca, o)]:
             return fail(f"{how}: entries/members differ", how=how)
         if c.uuid == o.uuid:
@@ -407,6 +407,11 @@ def correspond(ctx):
             f = check_object(ca, name, make, text, plat)
             if f and not matches_known(ctx, "K-copy", f["input"], f["failure"]):
                 raise core.ImplViolation(f)
+    for name, make, text in _n1_objects(ca):      # zero-length prefixes on IOS: the listed finding N1b, nothing else
+        count += 1
+        f = check_object(ca, name, make, text, "ios")
+        if f and not matches_known(ctx, "K-copy", f["input"], f["failure"]):
+            raise core.ImplViolation(f)
     ctx.count("evaluations", count)
     ctx.coverage["distinct_nontrivial"] = len(seen) + len({repr(s["body"]) for s in specs})
     ctx.coverage["objects_checked"] = count
@@ -493,9 +498,42 @@ def search(ctx):
     return None
 
 
+def _n1_objects(ca):
+    out = []
+    for t in ("10.0.0.0/0", "0.0.0.0/0"):
+        out.append(("Address", (lambda t=t: ca.Address(t, platform="ios")), t))
+        out.append(("Ace", (lambda t=t: ca.Ace(f"permit ip {t} any", platform="ios")), f"permit ip {t} any"))
+    return out
+
+
 def known_lines(ctx):
-    return []
+    ca = core.impl_module()
+    out = []
+    for f in core.load_findings("C16"):
+        if f["status"] != "known":
+            continue
+        hit = False
+        if f["id"] == "N1b":
+            for name, make, text in _n1_objects(ca):
+                r = check_object(ca, name, make, text, "ios")
+                if r and matches_known(ctx, "K-copy", r["input"], r["failure"]):
+                    hit = True
+        if hit:
+            out.append(f"{f['id']}: {f['what']}")
+        else:
+            ctx.notes.append(f"known finding {f['id']} no longer reproduces")
+    return out
 
 
 def matches_known(ctx, kernel, meta, failure):
+    """N1b: the copy of an IOS Address / ACE built from a zero-length prefix 'A.B.C.D/0' reads 'any' where the
+    source reads '0.0.0.0 255.255.255.255' (same input as C06's N1).  Only text/data differences of that input."""
+    import re
+    w = failure.get("what", "")
+    if (kernel == "K-copy" and meta.get("class") in ("Address", "Ace") and meta.get("platform") == "ios"
+            and re.search(r"(^|\s)\d+\.\d+\.\d+\.\d+/0(\s|$)", str(meta.get("text", "")))
+            and meta.get("how") and meta.get("clause") in (None, "equal") and "mutation" not in meta
+            and "transformation" not in meta
+            and ("has text" in w or "different data" in w or "not equal (==)" in w)):
+        return "N1b"
     return None
